@@ -416,3 +416,8 @@ BOUNDS = {
 OUTSIDE = ["running under real asyncio/trio loops (nothing loop-specific can be reached without failing the token or loop-accessor checks, but that is an argument, not a check)", "lengths above the bound"]
 NONTRIVIAL_RULE = ">=2 suspensions passed through the library on the path"
 ASSUMPTIONS = ["C17(a) (zero suspensions with synchronous arguments) is additionally asserted by every C01/C02/C03/C05/C06/C13/C14 harness through the sync_only driver"]
+
+MANIFEST = {
+    "text": 'Every user awaitable suspends a symbolic number of times, yielding fresh token objects and expecting token-specific replies; the driver asserts that exactly these tokens come out of the library coroutine and that the number of suspensions equals uses x suspensions-per-use; asyncio loop accessors raise; synchronous arguments never suspend (also for large native inputs). Nothing is claimed outside the bounds listed in the evidence file.',
+    "note": 'Trusted: CrossHair 0.0.110 (with short-circuiting off and a refined callable() model), z3 5.1.0, the harness oracles. Running under real event loops is argued, not checked.',
+}
